@@ -65,7 +65,7 @@ func (f *File) Apply(filename string, src []byte) ([]byte, error) {
 		}
 
 		snap = snap.Diff(fout, cl)
-		cleanupFilePos(f.fset.File(fout.Pos()), cl, fout.Comments)
+		fout.Comments = cleanupFilePos(f.fset.File(fout.Pos()), cl, fout.Comments)
 	}
 
 	if retErr != nil {
@@ -96,7 +96,9 @@ func (f *File) Apply(filename string, src []byte) ([]byte, error) {
 	return bs, nil
 }
 
-func cleanupFilePos(tfile *token.File, cl engine.Changelog, comments []*ast.CommentGroup) {
+// cleanupFilePos removes the lines and comments of the changed sections from
+// the file and returns the comment groups that still hold comments.
+func cleanupFilePos(tfile *token.File, cl engine.Changelog, comments []*ast.CommentGroup) []*ast.CommentGroup {
 	linesToDelete := make(map[int]struct{})
 	for _, dr := range cl.ChangedIntervals() {
 		if dr.Start == token.NoPos {
@@ -134,4 +136,15 @@ func cleanupFilePos(tfile *token.File, cl engine.Changelog, comments []*ast.Comm
 	for i := len(lines) - 1; i >= 0; i-- {
 		tfile.MergeLine(lines[i])
 	}
+
+	// Drop the groups that lost all their comments: Pos and End of an empty
+	// group are undefined, and code that walks File.Comments (the import
+	// handling of later changes, for one) calls them.
+	remaining := make([]*ast.CommentGroup, 0, len(comments))
+	for _, cg := range comments {
+		if len(cg.List) > 0 {
+			remaining = append(remaining, cg)
+		}
+	}
+	return remaining
 }
